@@ -649,6 +649,7 @@ func viewsCase(in map[string]any) map[string]any {
 		}
 	}
 	mainPath := vhlib.Str(in, "main")
+	aliases = vhlib.Bool(in, "aliases")
 	var injs []inj
 	for _, it := range vhlib.List(in, "inject") {
 		pair, _ := it.([]any)
